@@ -155,7 +155,7 @@ class FrameCollector:
             # we process the vars as a single dict of 'locals'
             # process a copy of the mapping: the entry is removed again below, so the id of the real f_locals
             # mapping must not stay in the cache (a watch on locals() would then refer to the removed entry)
-            variable, log_str = processor.process_variable("locals", dict(f_locals))
+            variable, log_str = processor.process_variable("locals", dict(f_locals), names_are_identifiers=True)
             # now ee 'unwrap' the locals, so they are on the frame directly.
             if variable.vid in var_lookup:
                 variable_val = var_lookup[variable.vid]
